@@ -135,6 +135,17 @@ fn node(d: int) {
     loop { time.sleep(0.01); }
 }
 fn main() { node(N + 4); }`},
+	{name: "spawn-tree-waves", endless: false, vmOnly: true, generated: true, check: noOutput, src: `
+fn node(depth: int) {
+    if depth < N + 4 {
+        time.sleep(0.02);
+        spawn node(depth + 1);
+        spawn node(depth + 1);
+    } else {
+        time.sleep(1.0);
+    }
+}
+fn main() { node(0); }`},
 	{name: "spawn-tree-busy", endless: true, vmOnly: true, generated: true, check: noOutput, src: `
 let g = 0;
 fn node(d: int) {
@@ -236,7 +247,7 @@ func c10Exec(t *testing.T, spec RunSpec, cancelAt int64, deadline time.Duration,
 			}
 		}
 		if !arm { // reference run: bound the endless workloads by the simulator's own means
-			s.SetDeadline("reference-run", time.Hour)
+			s.SetDeadline("reference-run", 300*time.Second)
 		}
 		if backend == 0 {
 			env := &vmEnv{prog: prog, out: out, ctx: ctx, exec: NewVMExec(out), limits: generousLimits}
